@@ -4,8 +4,8 @@ import re
 PROP = "C15"
 ENGINE = "xmltok"
 USES_TRANSLATOR = True
-LEAN_TARGETS = ["H5V.Props.C15", "H5V.Props.C15Run", "H5V.Props.C15Clean", "H5V.Props.C15Tree"]
-AUDIT_IMPORTS = ["H5V.Props.C15Run", "H5V.Props.C15Clean", "H5V.Props.C15Tree"]
+LEAN_TARGETS = ["H5V.Props.C15", "H5V.Props.C15Run", "H5V.Props.C15Clean", "H5V.Props.C15Tree", "H5V.Props.C15Joint"]
+AUDIT_IMPORTS = ["H5V.Props.C15Run", "H5V.Props.C15Clean", "H5V.Props.C15Tree", "H5V.Props.C15Joint"]
 THEOREMS = ["H5V.Props.C15." + t for t in [
     "xmlTokSets_match", "C15_sets_cover", "C15_fast_eq_slow",
     "C15_step_mono", "C15_step_resume", "C15_step_good", "C15_step_sim",
@@ -21,6 +21,12 @@ THEOREMS = ["H5V.Props.C15." + t for t in [
     # the XML tree-builder model is insensitive to how text is cut into character tokens (Props/C15Tree.lean)
     "C15_tb_char_split", "C15_tb_sim_step", "C15_tb_errors_write_only", "C15_tree_resplit", "C15_tree_obs",
     "C15_tree_same_document", "C15_resplit_of_merge_eq", "C15_tree_merge_obs", "C15_tree_error_count_depends_on_cut",
+    # END TO END (Props/C15Joint.lean): the joint parse tokenizer model -> tree-builder model (`xmlParseChunks`, executed by
+    # the driver as `xmltok jtree` against the real parse_document) is independent of chunking and of exact_errors
+    "C15_joint_tokens_chunk_independence", "C15_joint_chunk_independence_state", "C15_joint_chunk_independence",
+    "C15_joint_total", "C15_joint_tokens_exact_errors", "C15_joint_exact_errors_state", "C15_joint_exact_errors",
+    "C15_joint_exact_errors_on_off", "C15_joint_end_to_end_state", "C15_joint_end_to_end", "C15_joint_any_two",
+    "C15_joint_run_boundaries", "C15_joint_canon_obs", "xj_driverFeed_ok", "xj_feedChunks_ok",
 ]] + ["H5V.Model.XmlTok." + t for t in [
     "step_mono", "step_resume", "step_good", "step_sim", "runsTo_chunk", "session_flatten", "step_discardBom",
     "setOf_cover", "transSet_dead",
@@ -89,9 +95,16 @@ def tree_case(chunks, exact=0, bom=1):
     return "\t".join(["xmltok", "tree", "exact=%d,bom=%d" % (exact, bom), "|".join(hx(c) for c in chunks)])
 
 
+def joint_case(chunks, exact=0, bom=1):
+    return "\t".join(["xmltok", "jtree", "exact=%d,bom=%d" % (exact, bom), "|".join(hx(c) for c in chunks)])
+
+
 def parse_case(line):
     f = line.split("\t")
     o = dict(p.split("=") for p in f[2].split(","))
+    if f[1] == "jtree":
+        return {"mode": "jtree", "exact": int(o["exact"]), "bom": int(o["bom"]), "state": "-",
+                "chunks": [unhx(c) for c in f[3].split("|")]}
     if f[1] == "tok":
         return {"mode": "tok", "exact": int(o["exact"]), "bom": int(o["bom"]), "state": f[3],
                 "chunks": [unhx(c) for c in f[4].split("|")]}
@@ -225,6 +238,12 @@ def gen_cases(tier, rng):
         if line not in seen:
             seen.add(line)
             cases.append((line, tag))
+            f = line.split("\t")
+            if f[1] == "tree":
+                # the same case through the joint model (tokenizer model -> tree-builder model): model = code, and
+                # (oracle) the result is independent of chunking and exact_errors
+                f[1] = "jtree"
+                cases.append(("\t".join(f), tag + "-joint"))
 
     def variants(s, st, fam, full_parts, tree):
         add(case([s], state=st), fam)
@@ -332,7 +351,7 @@ def oracle(line, out):
     if out is None or out.startswith(BAD):
         return "implementation crashed: %s" % out
     c = parse_case(line)
-    if c["mode"] == "tree":
+    if c["mode"] in ("tree", "jtree"):
         return None
     ts = toks(out)
     if not ts or ts[-1] != "EOF":
@@ -368,7 +387,7 @@ def oracle_all(cases, outs):
             by_key[key_of(c)] = (line, out)
 
     def content(c, out):
-        if c["mode"] == "tree":
+        if c["mode"] in ("tree", "jtree"):
             return out
         return ";".join(drop_errors(toks(out)))
 
@@ -387,7 +406,7 @@ def oracle_all(cases, outs):
             if content(c, out) != content(c, bo):
                 what = "exact_errors" if c["exact"] == 1 and len(c["chunks"]) == 1 else "chunking/options"
                 res.append((line, "%s change the %s: %s  vs base: %s"
-                            % (what, "tree" if c["mode"] == "tree" else "tokens (errors aside)", content(c, out)[:300], content(c, bo)[:300]), out))
+                            % (what, "tree" if c["mode"] in ("tree", "jtree") else "tokens (errors aside)", content(c, out)[:300], content(c, bo)[:300]), out))
                 continue
         # 2. CR / CRLF spellings equal the LF spelling
         if "\r" in whole:
@@ -419,7 +438,7 @@ def compare(line, impl, model):
 
 
 def nontrivial(line, out):
-    return out is not None and out not in ("EOF", "T=#doc") and not out.startswith(BAD)
+    return out is not None and out not in ("EOF", "T=#doc", "J=err=-;tree=-") and not out.startswith(BAD)
 
 
 def neighbourhood(line):
